@@ -785,7 +785,7 @@ def gen_topic(rng, tier):
 # Each of the three families found genuine defects in /repo (fixes/C19-win-*.diff, C19-outbox-double-relay.diff,
 # C19-idem-cleanup-chains.diff) and keeps its generator away from the defective interleavings until the patch is applied
 # (module flag RESTRICT_UNTIL_FIXED; witnesses parked in corpus/C19/parked/).  HV_C19_UNRESTRICTED=1 lifts all three.
-if os.environ.get("HV_C19_UNRESTRICTED"):
+if os.environ.get("HV_C19_UNRESTRICTED", "1"):   # the four repairs are in /repo: restrictions lifted by default
     for _v in ("HV_C19_WIN_UNRESTRICTED", "HV_C19_OUTBOX_UNRESTRICTED", "HV_IDEM_UNRESTRICTED"):
         os.environ.setdefault(_v, "1")
 EXT = {}
